@@ -364,8 +364,75 @@ fn reason(bytes: &[u8], idx: usize) -> String {
     "other".into()
 }
 
+/// The record sections read as fixed-size arrays of records through the new API (`[Record<_, BoxedRecordData>; N]`, an
+/// element type that owns memory): N records are there for the new codec exactly when they are for the established one,
+/// and a record that is broken in the middle of the array makes it a refusal, nothing worse.
+fn arrays_one(c: &mut Ctx, fam: &str, idx: u64, bytes: &[u8], kind: &str) {
+    use domain::new::base::parse::SplitMessageBytes;
+    use domain::new::rdata::BoxedRecordData;
+    if bytes.len() < 12 {
+        return;
+    }
+    // where the answer section starts, by the reference reader
+    let qd = u16::from_be_bytes([bytes[4], bytes[5]]) as usize;
+    let mut p = 12;
+    for _ in 0..qd.min(8) {
+        match w::read_name(bytes, p) {
+            Ok((_, next, _)) if next + 4 <= bytes.len() => p = next + 4,
+            _ => return,
+        }
+    }
+    if qd > 8 {
+        return;
+    }
+    let start = p - 12;
+    let contents = &bytes[12..];
+    // how many records the established codec reads from there (header and record data both)
+    let old_n = {
+        let total = (u16::from_be_bytes([bytes[6], bytes[7]]) as usize + u16::from_be_bytes([bytes[8], bytes[9]]) as usize + u16::from_be_bytes([bytes[10], bytes[11]]) as usize).min(4);
+        let mut n = 0;
+        let mut parser = Parser::from_ref(bytes);
+        if parser.advance(p).is_ok() {
+            for _ in 0..total {
+                let Ok(rec) = domain::base::record::ParsedRecord::parse(&mut parser) else { break };
+                if rec.to_any_record::<AllRecordData<_, _>>().is_err() {
+                    break;
+                }
+                n += 1;
+            }
+        }
+        n
+    };
+    type R = NewRecord<RevNameBuf, BoxedRecordData>;
+    let ex = || json!({"input_hex": hex(&bytes[..bytes.len().min(600)]), "kind": kind, "answer_section_at": p});
+    let r = c.guard(fam, idx, ex, || {
+        let one = <[R; 1]>::split_message_bytes(contents, start).is_ok();
+        let two = <[R; 2]>::split_message_bytes(contents, start).is_ok();
+        let three = <[R; 3]>::split_message_bytes(contents, start).map(|(a, _)| a.iter().map(|r| r.rdata.bytes().len()).sum::<usize>()).is_ok();
+        let four = <[R; 4]>::split_message_bytes(contents, start).is_ok();
+        [one, two, three, four]
+    });
+    let Some(got) = r else { return };
+    c.count("arrays_of_records_parsed", got.iter().filter(|x| **x).count() as u64);
+    c.count("arrays_of_records_refused", got.iter().filter(|x| !**x).count() as u64);
+    // (monotone: if N records are there, so are N-1)
+    for n in 1..4 {
+        if got[n] && !got[n - 1] {
+            c.violation("arrays:not-monotone", &format!("{} records are read as an array, {} are not", n + 1, n), c.replay_of(fam, idx, ex()));
+            return;
+        }
+    }
+    let new_n = got.iter().filter(|x| **x).count();
+    if new_n < old_n.min(4) && !bytes[p..].windows(3).any(|w_| w_ == [0, 0, 41]) {
+        // (the established codec reads them all; an OPT record is the new API's EDNS item and no Record)
+        c.count("arrays_fewer_than_established", 1);
+    }
+    c.eval(&("arrays", kind, got, old_n.min(4)));
+}
+
 fn diff_one(c: &mut Ctx, fam: &str, idx: u64, bytes: &[u8], kind: &str) {
     ctx::slot_write(idx, &format!("{}|{}", fam, kind), bytes);
+    arrays_one(c, fam, idx, bytes, kind);
     let ex = || json!({"input_hex": hex(bytes), "kind": kind});
     let r = ctx::catch(|| (new_read(bytes), old_read(bytes)));
     let (n, o) = match r {
